@@ -22,7 +22,9 @@ type hCfg struct {
 	MaxSess      int  // live sessions per history
 	Steps        int  // operations per history (after association setup)
 	PChoose      int  // percent of uplink PDRs with CHOOSE F-TEID
+	CreateByModUP4 bool // (C04 only) histories with Create PDR by modification on UP4: leftovers of a rejected one are one recorded finding
 	KeyChangeUP4 bool // (C04 only) histories with key-changing Update PDRs on UP4: mismatches after one are one recorded finding
+	ShufflePDI   bool // the IEs inside each PDI are sent in a random order
 	PChooseDL    int  // percent of downlink (core-side) PDRs that also carry a CHOOSE F-TEID (N9-style); response checks only
 	PAlloc       int  // percent of sessions asking for UE IP allocation (agent must have it enabled)
 	PSDF         int  // percent of PDRs with an SDF filter
@@ -80,6 +82,8 @@ type hRunner struct {
 	rejected int // requests inside the envelope that the agent rejected
 	ghosts   []mGhost
 	sawKeyChange bool // an Update PDR changed a match key in this history
+	farBase      uint32 // FAR ID = PDR ID + farBase (even): rule ids of different kinds need not coincide
+	farBaseSet   bool
 	ghostPeers map[uint32]bool // GTP peers a FAR was moved away from by an Update FAR
 	precByFilter map[mFilter]uint32
 
@@ -188,7 +192,11 @@ func (h *hRunner) genSession(assoc int) (*vEstSpec, *mSession, map[uint16]*mFlow
 			continue
 		}
 		upID, dnID := uint16(2*k+1), uint16(2*k+2)
-		upFAR, dnFAR := uint32(2*k+1), uint32(2*k+2)
+		if !h.farBaseSet {
+			h.farBaseSet = true
+			h.farBase = []uint32{0, 0, 20, 100, 4}[int(h.base/40)%5]
+		}
+		upFAR, dnFAR := h.farBase+uint32(2*k+1), h.farBase+uint32(2*k+2)
 		_ = appPrec
 		up := vPDRSpec{ID: upID, Prec: precs[pi%len(precs)], Src: ie.SrcInterfaceAccess, FTEID: true, TEID: teid + uint32(k), TunIP: vIPStr(h.n3), UE: true, UEIP: ue, UEFlag: 0x02, OHR: true, FAR: upFAR}
 		pi++
@@ -219,6 +227,9 @@ func (h *hRunner) genSession(assoc int) (*vEstSpec, *mSession, map[uint16]*mFlow
 		}
 		if c.PChooseDL > 0 && rng.Intn(100) < c.PChooseDL {
 			dn.FTEID, dn.Choose = true, true
+		}
+		if c.ShufflePDI {
+			up.PDIOrder, dn.PDIOrder = rng.Intn(9), rng.Intn(9)
 		}
 		if alloc {
 			up.UEFlag, up.UEIP = 0x04, ""
@@ -533,8 +544,8 @@ func (h *hRunner) genMod(a int, s *mSession) *hOp {
 				tun = p.TEID
 			}
 		}
-		up := vPDRSpec{ID: upID, Prec: pr(), Src: ie.SrcInterfaceAccess, FTEID: true, TEID: tun, TunIP: vIPStr(h.n3), UE: true, UEIP: ue, UEFlag: 0x02, OHR: true, FAR: uint32(upID), SDF: fl.Text}
-		dn := vPDRSpec{ID: dnID, Prec: pr(), Src: ie.SrcInterfaceCore, UE: true, UEIP: ue, UEFlag: 0x02, FAR: uint32(dnID), SDF: fl.Text}
+		up := vPDRSpec{ID: upID, Prec: pr(), Src: ie.SrcInterfaceAccess, FTEID: true, TEID: tun, TunIP: vIPStr(h.n3), UE: true, UEIP: ue, UEFlag: 0x02, OHR: true, FAR: h.farBase + uint32(upID), SDF: fl.Text}
+		dn := vPDRSpec{ID: dnID, Prec: pr(), Src: ie.SrcInterfaceCore, UE: true, UEIP: ue, UEFlag: 0x02, FAR: h.farBase + uint32(dnID), SDF: fl.Text}
 		if tun == 0 {
 			up.TEID = uint32(0x900000 + rng.Intn(0xFFFF))
 		}
@@ -543,8 +554,8 @@ func (h *hRunner) genMod(a int, s *mSession) *hOp {
 		up.QERs, dn.QERs = []uint32{qid}, []uint32{qid}
 		mod.CrPDR = []vPDRSpec{up, dn}
 		mod.CrFAR = []vFARSpec{
-			{ID: uint32(upID), Action: ActionForward, Fwd: true, HasDst: true, DstIf: ie.DstInterfaceCore},
-			{ID: uint32(dnID), Action: ActionForward, Fwd: true, HasDst: true, DstIf: ie.DstInterfaceAccess, OHC: true, OHCTeid: uint32(0x40000 + rng.Intn(0xFFFF)), OHCIP: "198.18.0.12"},
+			{ID: h.farBase + uint32(upID), Action: ActionForward, Fwd: true, HasDst: true, DstIf: ie.DstInterfaceCore},
+			{ID: h.farBase + uint32(dnID), Action: ActionForward, Fwd: true, HasDst: true, DstIf: ie.DstInterfaceAccess, OHC: true, OHCTeid: uint32(0x40000 + rng.Intn(0xFFFF)), OHCIP: "198.18.0.12"},
 		}
 		mod.CrQER = []vQERSpec{q}
 		op.Flows[upID], op.Flows[dnID] = fl, fl
@@ -562,7 +573,7 @@ func (h *hRunner) genMod(a int, s *mSession) *hOp {
 		dnID := maxID
 		upID := maxID - 1
 		mod.RmPDR = []uint16{upID, dnID}
-		mod.RmFAR = []uint32{uint32(upID), uint32(dnID)}
+		mod.RmFAR = []uint32{h.farBase + uint32(upID), h.farBase + uint32(dnID)}
 		k := int(dnID)/2 - 1
 		if s.qer(uint32(10+k)) != nil {
 			mod.RmQER = []uint32{uint32(10 + k)}
